@@ -723,6 +723,9 @@ impl World {
 			}
 		};
 		let exp = self.model.state(self.model.len());
+		if let Some(m) = self.check_index_pointers() {
+			return Some(m);
+		}
 		if self.opt.versioning.is_some() {
 			// a time-range history scan first: whatever it leaves in the caches must not change
 			// the answers of the plain reads that follow
@@ -737,6 +740,48 @@ impl World {
 			}
 		}
 		check_view("fresh", &txn, &exp, keys)
+	}
+
+	/// With a value log and a version index: every value-log file an index entry points into
+	/// must exist (no file is removed while an index entry can still lead a reader to it).
+	pub fn check_index_pointers(&self) -> Option<Mismatch> {
+		if self.opt.vlog.is_none() || !matches!(self.opt.versioning, Some((_, true))) {
+			return None;
+		}
+		let tree = self.tree.as_ref()?;
+		let refs = match tree.verif_index_vlog_files() {
+			Ok(r) => r,
+			Err(e) => {
+				return Some(Mismatch {
+					who: "index".into(),
+					query: "walk".into(),
+					expected: "Ok".into(),
+					got: format!("Err({e})"),
+					kind: "error".into(),
+				})
+			}
+		};
+		let mut on_disk = std::collections::BTreeSet::new();
+		if let Ok(rd) = std::fs::read_dir(self.dir.join("vlog")) {
+			for e in rd.flatten() {
+				let n = e.file_name().to_string_lossy().to_string();
+				if let Some(id) = n.strip_suffix(".vlog").and_then(|x| x.parse::<u32>().ok()) {
+					on_disk.insert(id);
+				}
+			}
+		}
+		let missing: Vec<u32> = refs.iter().copied().filter(|f| !on_disk.contains(f)).collect();
+		if missing.is_empty() {
+			None
+		} else {
+			Some(Mismatch {
+				who: "index".into(),
+				query: "value-log files referenced by version-index entries".into(),
+				expected: "all present".into(),
+				got: format!("missing files {missing:?} (on disk {on_disk:?})"),
+				kind: "dangling-index-pointer".into(),
+			})
+		}
 	}
 
 	/// Full content through a fresh read-only transaction (no model).
